@@ -225,8 +225,11 @@ PROPS = {
         "concatenation of the writes (self-describing payload: missing / duplicated / reordered ranges are named), "
         "len() = bytes written, readiness true iff after drop. Leg 2: producer and consumer on real threads with "
         "seeded delays at the cfg-hook points inside update/Drop/switch/await; interleaving signature and hand-off "
-        "class from the trace; await must never return before the producer's drop; a stalled case is re-run alone 3x "
-        "before it counts as no_progress. Leg 3: Miri (-Zmiri-many-seeds, 8 quick / 48 thorough) on a reduced threaded "
+        "class from the trace; await must never return before the producer's drop; bounded progress is judged in the "
+        "harness itself: once the producer thread has been joined the waiting call gets 10 s (it needs microseconds) "
+        "before the run is a definite wait_did_not_return verdict. Every sixth case is a *race-mode* case: 400 short "
+        "trials in which Drop and switch/await are released from a spin barrier with random spin offsets, so the Drop "
+        "sweeps across every instant of the consumer's wait sequence (200 000 trials in quick). Leg 3: Miri (-Zmiri-many-seeds, 8 quick / 48 thorough) on a reduced threaded "
         "workload with R = BufWriter<..> as in bigtools (data races, UB, deadlock are definite verdicts). Thorough adds "
         "leg 2 in a ThreadSanitizer build. Non-trivial = at least one write; distinct by history / by interleaving "
         "signature.",
